@@ -3,6 +3,8 @@
 #include <functional>
 #include <string>
 #include <vector>
+// weak: libtest_util.a(setup_common.cpp.o) has a strong definition that wins when that member is linked
+extern const TranslateFn G_TRANSLATION_FUN __attribute__((weak));
 const TranslateFn G_TRANSLATION_FUN{nullptr};
 // Extra command line arguments for BasicTestingSetup-derived setups; harnesses may push to this.
 std::vector<const char*> g_vx_test_args;
